@@ -18,7 +18,7 @@ RULE = ('models printed by the harness with recorded offsets: plain and qualifie
         'span, the innermost one on ties, and no key is preceded by a different span contained in ... containing it. '
         'distinct = (model shape, schedule); non-trivial = a postponed reference, a qualified name or a shared span present')
 REQUIRED = {'models': 300, 'crossref_entries_checked': 1000, 'postponed_references': 100, 'qualified_references': 200,
-            'shared_span_groups': 100, 'cross_file_references': 50, 'position_map_keys_checked': 2000}
+            'shared_span_groups': 100, 'cross_file_references': 50, 'position_map_keys_checked': 2000, 'short_form_references': 100}
 
 GRAMMAR = '''
 Model: imports*=Import items*=Item;
@@ -100,6 +100,11 @@ class Printer:
             written = q
             if '.' in q and self.r.random() < 0.25:
                 written = q.replace('.', self.r.choice([' .', '. ', ' . ']), 1)
+            elif '.' in q and self.r.random() < 0.4:
+                # short form: only the last name part is written; which definition is meant is decided by the
+                # (position aware) provider, so equal reference texts of one file resolve to different objects
+                written = q.rsplit('.', 1)[1]
+                self.short = getattr(self, 'short', 0) + 1
             rs = self.cur()
             self.emit(written)
             self.refs.append((rs, self.cur(), written, q))
@@ -173,7 +178,8 @@ def one(ctx, i, rep=None):
                         tops.extend(it.content.more)
                 cur = tops
                 found = None
-                for part in ref.obj_name.split('.'):
+                name = INTENT.get((mo._tx_filename, ref.position), ref.obj_name)
+                for part in name.split('.'):
                     found = next((d for d in cur if d.name == part), None)
                     if found is None:
                         break
@@ -182,6 +188,12 @@ def one(ctx, i, rep=None):
                     return found
             return None
         inner = lookup
+        INTENT = {}
+        for fi, b in enumerate([main] + ([other] if two else [])):
+            for rs, re_, w, q in b[0].refs:
+                if w == q.rsplit('.', 1)[-1] and '.' in q:
+                    INTENT[(paths[fi], rs)] = q
+                    ctx.count('short_form_references')
 
         class Sched(sp.ImportURI):
             def __init__(self):
